@@ -310,4 +310,101 @@ theorem fitNode_returns (P : Params α β) (D : Data α β) (ord : List Nat → 
                 rw [hle] at h1; exact absurd h1 (by simp)
 
 end totalField
+/-! ### `iter_nodes()`: the queue loop yields the level order -/
+set_option linter.dupNamespace false
+section level
+variable {α : Type}
+
+/-- height of a tree: a leaf has height 0 -/
+def Tree.height : Tree α → Nat
+  | .leaf _ _ => 0
+  | .node _ _ _ _ _ l r => 1 + max l.height r.height
+  | .half _ _ _ _ _ _ c => 1 + c.height
+
+/-- the level order written level by level: the nodes of the current level from left to right, then
+the level below (the children of the current level, left to right) -/
+def levels : Nat → List (Tree α) → List (Tree α)
+  | 0, _ => []
+  | h + 1, q => q ++ levels h (q.flatMap Tree.children)
+
+theorem bfs_nil (fuel : Nat) : bfs fuel ([] : List (Tree α)) = [] := by cases fuel <;> rfl
+
+theorem levels_nil : ∀ h, levels h ([] : List (Tree α)) = [] := by
+  intro h
+  induction h with
+  | zero => rfl
+  | succ h ih => simp [levels, ih]
+
+theorem sum_size_children (q : List (Tree α)) :
+    (q.map Tree.size).sum = q.length + ((q.flatMap Tree.children).map Tree.size).sum := by
+  induction q with
+  | nil => rfl
+  | cons x q ih =>
+    simp only [List.map_cons, List.sum_cons, List.flatMap_cons, List.map_append, List.sum_append,
+      List.length_cons]
+    rw [size_eq x, ih]
+    omega
+
+/-- the queue loop of `NodeIter`: once the nodes `q` at the front of the queue have been yielded, the
+queue holds what was behind them followed by their children -/
+theorem bfs_append (q : List (Tree α)) : ∀ (r : List (Tree α)) (fuel : Nat),
+    ((q ++ r).map Tree.size).sum ≤ fuel →
+    bfs fuel (q ++ r) = q ++ bfs (fuel - q.length) (r ++ q.flatMap Tree.children) := by
+  induction q with
+  | nil => intro r fuel _; simp
+  | cons x q ih =>
+    intro r fuel h
+    have hx := size_pos x
+    simp only [List.cons_append, List.map_cons, List.sum_cons] at h
+    obtain ⟨fuel', rfl⟩ : ∃ f, fuel = f + 1 := ⟨fuel - 1, by omega⟩
+    have hsz : (((q ++ (r ++ x.children))).map Tree.size).sum ≤ fuel' := by
+      rw [size_eq x] at h
+      simp only [List.map_append, List.sum_append] at h ⊢
+      omega
+    simp only [List.cons_append, bfs, List.append_assoc]
+    rw [ih (r ++ x.children) fuel' hsz]
+    simp [List.flatMap_cons, List.append_assoc]
+
+theorem height_children (t c : Tree α) (hc : c ∈ t.children) : c.height < t.height := by
+  cases t with
+  | leaf _ _ => simp [Tree.children] at hc
+  | node f s dec p d l r =>
+    simp only [Tree.children, List.mem_cons, List.mem_nil_iff, or_false] at hc
+    rcases hc with rfl | rfl <;> simp only [Tree.height] <;> omega
+  | half f s dec p d il c' =>
+    simp only [Tree.children, List.mem_cons, List.mem_nil_iff, or_false] at hc
+    subst hc
+    simp only [Tree.height]; omega
+
+theorem bfs_eq_levels : ∀ (h : Nat) (q : List (Tree α)) (fuel : Nat),
+    (q.map Tree.size).sum ≤ fuel → (∀ t ∈ q, t.height < h) → bfs fuel q = levels h q := by
+  intro h
+  induction h with
+  | zero =>
+    intro q fuel _ hq
+    cases q with
+    | nil => exact bfs_nil fuel
+    | cons x q => exact absurd (hq x (by simp)) (by omega)
+  | succ h ih =>
+    intro q fuel hf hq
+    have := bfs_append q [] fuel (by simpa using hf)
+    simp only [List.append_nil, List.nil_append] at this
+    rw [this, levels]
+    congr 1
+    refine ih _ _ ?_ ?_
+    · have := sum_size_children q
+      omega
+    · intro c hc
+      obtain ⟨t, ht, hct⟩ := List.mem_flatMap.mp hc
+      have := height_children t c hct
+      have := hq t ht
+      omega
+
+/-- **`iter_nodes()` yields the nodes in level order**: the root, then the nodes of depth 1 from left
+to right, then those of depth 2, … -/
+theorem iterNodes_eq_levels (t : Tree α) : iterNodes t = levels (t.height + 1) [t] := by
+  unfold iterNodes
+  exact bfs_eq_levels _ _ _ (by simp) (by intro u hu; simp only [List.mem_singleton] at hu; subst hu; omega)
+
+end level
 end LinfaSpec.Tree
